@@ -289,7 +289,9 @@ def check_glyph(prog, rep):
             t = b["t"]
             if t and t["k"] == "call" and t["f"].get("name") == "new_unchecked" and "SubImage" in t["f"].get("path", ""):
                 callers.append(f.path)
-    rep.check(set(callers) == {g.path}, "R09.1", "new_unchecked-callers", "SubImage::new_unchecked may only be called from MonoFont::glyph; callers: %s" % sorted(set(callers)), detail=callers)
+    # SubImage::new may route its (intersected, see C09 R09.1) area through new_unchecked
+    si_new = [f.path for f in prog.fns.values() if f.kind == "assoc_fn" and f.name == "new" and "image::sub_image::SubImage" in f.path]
+    rep.check(g.path in callers and set(callers) <= {g.path} | set(si_new), "R09.1", "new_unchecked-callers", "SubImage::new_unchecked may only be called from MonoFont::glyph; callers: %s" % sorted(set(callers)), detail=callers)
     decs = decisions(g)
     ok = True
     n_cell = 0
